@@ -1,12 +1,16 @@
 package main
 
 // C18: the stateful middlewares (subscription quota, receive-side and
-// send-side unique filters), alone and stacked, with 1..6 sessions sharing ONE
-// middleware value (one Handler value): histories over {REQ,CLOSE}x{a,b,c},
-// client EVENTx{x,y,z}, server EVENTx{x,y,z} (+ a few EOSE/CLOSED/other
-// messages), N and window size in {1,2,3}.  Sessions are advanced one
-// operation at a time in an interleaving chosen by the harness (deterministic).
-// The driver is the one of c17.go.
+// send-side unique filters), alone and stacked, with 1..6 connections sharing
+// ONE middleware value (one Handler value): histories over {REQ,CLOSE}x{a,b,c},
+// client EVENTx{x,y,z}, server EVENTx{x,y,z}, the downstream's OK (accepted
+// or not) for an event id (+ a few EOSE/CLOSED/other messages), N and window
+// size in {1,2,3}.  The event behind an id is fixed per case; its kind is drawn
+// from every class of NIP-01 including the class boundaries.  Connections are
+// advanced one operation at a time in an interleaving chosen by the harness
+// (deterministic); in a third of the cases they come and go: a connection ends
+// with whatever it opened still open, and another begins afterwards on the
+// same middleware value.  The driver is the one of c17.go.
 
 import (
 	"encoding/json"
@@ -34,29 +38,61 @@ func c18Run(c *c18Case) {
 	if c.NSess < 1 {
 		c.NSess = 1
 	}
+	c.Ops = mwNormalize(c.NSess, c.Ops)
 	c.Obs = mwRunSessions(h, c.NSess, c.Ops, c.Now)
 }
 
 var c18Subs = []string{"a", "b", "c"}
 var c18Evs = []string{"x", "y", "z"}
 
+// kinds of every class of NIP-01 (regular, replaceable, ephemeral,
+// addressable) with both sides of every class boundary
+var c18EvKinds = []int64{0, 1, 3, 5, 9999, 10000, 19999, 20000, 20001, 29999, 30000, 39999, 40000}
+
+type c18Ctx struct {
+	r      *common.Rand
+	kinds  map[string]bool  // middlewares present
+	evKind map[string]int64 // the event behind an id is fixed per case
+}
+
 func c18Event(r *common.Rand, id string) *mwEvent {
 	return &mwEvent{ID: id, PK: "pa", DTS: 0, Kind: 1, Tags: [][]string{}, Content: common.Pick(r, []string{"", "hi"})}
 }
 
-func c18Op(r *common.Rand, kinds map[string]bool) mwOp {
+func (x *c18Ctx) event(id string) *mwEvent {
+	e := c18Event(x.r, id)
+	if k, ok := x.evKind[id]; ok {
+		e.Kind = k
+	}
+	return e
+}
+
+func c18NewCtx(r *common.Rand, kinds map[string]bool) *c18Ctx {
+	x := &c18Ctx{r: r, kinds: kinds, evKind: map[string]int64{}}
+	for _, id := range c18Evs {
+		x.evKind[id] = 1
+		if r.Chance(50) {
+			x.evKind[id] = common.Pick(r, c18EvKinds)
+		}
+	}
+	return x
+}
+
+func (x *c18Ctx) op() mwOp {
+	r := x.r
 	// weights follow the middlewares present so that their boundaries are crossed often
-	wReq, wEv, wSEv := 10, 10, 10
-	if kinds["max_subs"] {
+	wReq, wEv, wSEv, wOK := 10, 10, 10, 6
+	if x.kinds["max_subs"] {
 		wReq = 45
 	}
-	if kinds["recv_unique"] {
+	if x.kinds["recv_unique"] {
 		wEv = 40
+		wOK = 14 // the downstream answers the events that reached it
 	}
-	if kinds["send_unique"] {
+	if x.kinds["send_unique"] {
 		wSEv = 40
 	}
-	total := wReq + wEv + wSEv + 8
+	total := wReq + wEv + wSEv + wOK + 8
 	k := r.Intn(total)
 	switch {
 	case k < wReq:
@@ -65,12 +101,21 @@ func c18Op(r *common.Rand, kinds map[string]bool) mwOp {
 		}
 		return mwOp{D: "c", C: &mwCMsg{T: "CLOSE", Sub: common.Pick(r, c18Subs)}}
 	case k < wReq+wEv:
-		return mwOp{D: "c", C: &mwCMsg{T: "EVENT", E: c18Event(r, common.Pick(r, c18Evs))}}
+		return mwOp{D: "c", C: &mwCMsg{T: "EVENT", E: x.event(common.Pick(r, c18Evs))}}
 	case k < wReq+wEv+wSEv:
-		return mwOp{D: "s", M: &mwSMsg{T: "EVENT", Sub: common.Pick(r, c18Subs), E: c18Event(r, common.Pick(r, c18Evs))}}
+		return mwOp{D: "s", M: &mwSMsg{T: "EVENT", Sub: common.Pick(r, c18Subs), E: x.event(common.Pick(r, c18Evs))}}
+	case k < wReq+wEv+wSEv+wOK:
+		// the downstream handler's answer to an EVENT: accepted, or refused for one of the
+		// protocol's reasons (the event is already stored, rate limit, policy, storage error)
+		m := &mwSMsg{T: "OK", ID: common.Pick(r, c18Evs), Acc: r.Chance(40)}
+		if !m.Acc {
+			m.Prefix = common.Pick(r, []string{"duplicate: ", "rate-limited: ", "blocked: ", "error: ", ""})
+			m.Msg = "refused"
+		}
+		return mwOp{D: "s", M: m}
 	}
 	// the rest: messages that must not touch any of the three states
-	switch r.Intn(6) {
+	switch r.Intn(5) {
 	case 0:
 		return mwOp{D: "s", M: &mwSMsg{T: "EOSE", Sub: common.Pick(r, c18Subs)}}
 	case 1:
@@ -78,9 +123,7 @@ func c18Op(r *common.Rand, kinds map[string]bool) mwOp {
 	case 2:
 		return mwOp{D: "c", C: &mwCMsg{T: "COUNT", Sub: common.Pick(r, c18Subs), Fs: []common.JFilter{}}}
 	case 3:
-		return mwOp{D: "c", C: &mwCMsg{T: "AUTH", E: c18Event(r, common.Pick(r, c18Evs))}}
-	case 4:
-		return mwOp{D: "s", M: &mwSMsg{T: "OK", ID: common.Pick(r, c18Evs), Acc: true}}
+		return mwOp{D: "c", C: &mwCMsg{T: "AUTH", E: x.event(common.Pick(r, c18Evs))}}
 	default:
 		return mwOp{D: "s", M: &mwSMsg{T: "NOTICE", Msg: "n"}}
 	}
@@ -113,20 +156,33 @@ func c18Gen(root *common.Rand, i int) c18Case {
 			}
 		}
 	}
-	c.NSess = 1
-	if r.Chance(65) {
-		c.NSess = 1 + r.Intn(6)
-	}
+	x := c18NewCtx(r, kinds)
 	n := 4 + r.Intn(9)
 	if r.Chance(25) {
 		n += 6 + r.Intn(10)
+	}
+	if r.Chance(33) {
+		// connections come and go: up to 6 slots, 3 connections at a time
+		n = n * 2
+		if n > 40 {
+			n = 40
+		}
+		c.Ops, c.NSess = mwSchedule(r, 6, 3, n, 20, x.op)
+		return c
+	}
+	c.NSess = 1
+	if r.Chance(65) {
+		c.NSess = 1 + r.Intn(6)
 	}
 	n = n * (1 + (c.NSess-1)/2)
 	if n > 40 {
 		n = 40
 	}
+	for j := 0; j < c.NSess; j++ {
+		c.Ops = append(c.Ops, mwOp{S: j, D: "start"})
+	}
 	for j := 0; j < n; j++ {
-		op := c18Op(r, kinds)
+		op := x.op()
 		op.S = r.Intn(c.NSess)
 		c.Ops = append(c.Ops, op)
 	}
